@@ -130,7 +130,9 @@ func fromScheme(s sign.Scheme) *instance {
 		}, nil
 	}
 	in.verify = func(pkB, msg []byte, ctx string, sig []byte) bool {
-		pk, err := s.UnmarshalBinaryPublicKey(pkB)
+		rbuf := append([]byte{}, pkB...)
+		pk, err := s.UnmarshalBinaryPublicKey(rbuf)
+		core.Recycle(rbuf) // the receive buffer is reused once the key is decoded
 		if err != nil {
 			return false
 		}
@@ -444,7 +446,14 @@ func exec(planJSON []byte, run *core.Run) {
 		return
 	}
 	pkOther, _ := in.derive(core.NewPRNG(p.KeySeed + 1).Bytes(in.seedSize))
-	pub, signf, err := in.restore(append([]byte{}, skB...))
+	// every buffer a key is loaded from is recycled by its owner as soon as the call returns
+	restore := func() ([]byte, func([]byte, string) []byte, error) {
+		page := append([]byte{}, skB...)
+		pub, sf, err := in.restore(page)
+		core.Recycle(page)
+		return pub, sf, err
+	}
+	pub, signf, err := restore()
 	if err != nil {
 		run.Violate(comp+".UnmarshalBinaryPrivateKey", "rejects-own-encoding", "%v", err)
 		return
@@ -484,7 +493,7 @@ func exec(planJSON []byte, run *core.Run) {
 			}
 		}
 		if m.Rst {
-			_, sf, err := in.restore(append([]byte{}, skB...))
+			_, sf, err := restore()
 			if err != nil {
 				run.Violate(comp+".UnmarshalBinaryPrivateKey", "rejects-own-encoding", "%v", err)
 				return
@@ -500,7 +509,7 @@ func exec(planJSON []byte, run *core.Run) {
 			return
 		}
 		// determinism: a fresh signer restored from disk produces the same bytes
-		_, sf2, _ := in.restore(append([]byte{}, skB...))
+		_, sf2, _ := restore()
 		if sig2 := sf2(append([]byte{}, msg...), ctx); !bytes.Equal(sig, sig2) {
 			run.Violate(comp+".Sign", "deterministic-scheme-not-deterministic", "message %d: original signer %s, restored signer %s", i, sh(sig), sh(sig2))
 			return
